@@ -40,7 +40,7 @@ theorem roundtrip_two_comp (S D : List Int) (stdOff dstOff on off nextOn t : Int
     (H1 : ∀ x, on ≤ x → x < nextOn → lastLE D x = some on)
     (H2 : ∀ x, on ≤ x → x < off + (dstOff - stdOff) → ∀ p, lastLE S x = some p → p < on)
     (H3 : ∀ x, off + (dstOff - stdOff) ≤ x → x < nextOn + (dstOff - stdOff) → lastLE S x = some (off + (dstOff - stdOff)))
-    (hx1 : on ≤ t + stdOff) (hx2 : t + dstOff < nextOn) :
+    (hx1 : on ≤ t + stdOff) (hx2 : t + stdOff < nextOn) :
     let g := (generic [{ tzoffsetfrom := dstOff, tzoffsetto := stdOff, isdst := false, onsets := S : ZComp },
                        { tzoffsetfrom := stdOff, tzoffsetto := dstOff, isdst := true, onsets := D : ZComp }])
     g.utcoffset (g.fromutc t).1 (g.fromutc t).2 = (g.fromutc t).1 - t ∧
@@ -60,7 +60,7 @@ theorem roundtrip_two_comp (S D : List Int) (stdOff dstOff on off nextOn t : Int
   have h0 : g.toZone.utcoffset ⟨t, false⟩ - g.toZone.dst ⟨t, false⟩ = stdOff :=
     two_comp_std _ _ rfl rfl rfl t false
   obtain ⟨r1, _, r3, _⟩ := GenericZone.roundtrip g.toZone stdOff (dstOff - stdOff) off on nextOn t (by omega)
-    hsem hamb h0 hx1 (by omega)
+    hsem hamb h0 hx1 hx2 (by omega)
   rw [Generic.fromutc_eq]
   refine ⟨r1, ?_⟩
   show (g.toZone.fromutc t).wall = _
